@@ -1,9 +1,11 @@
 (* C04 — property theorems only: each closed by [exact] of a lemma proved elsewhere, or by
    computation over a table regenerated from /repo. *)
-From Coq Require Import List String ZArith.
+From Coq Require Import List String Ascii ZArith.
 From Helm Require Import Values.Tree Values.Merge Values.Coalesce Values.Options
                          Values.MergeProofs Values.CoalesceProofs Values.SubchartProofs Values.DepthProofs Values.GlobalProofs
-                         Values.Strvals Values.StrvalsProofs Values.GrammarProofs Gen.ValueOrder.
+                         Values.Strvals Values.StrvalsProofs Values.GrammarProofs Gen.ValueOrder
+                         Common.Strs Values.Strvals2 Values.Strvals2Proofs Values.Strvals2Read Values.Strvals2Grammar
+                         Gen.StrvalsTable Values.Strvals2Tables.
 Import ListNotations.
 Local Open Scope string_scope.
 
@@ -304,3 +306,253 @@ Example C04_set_frame_grammar_nonvacuous :
   /\ den_key [("l", Some ("65537", 65537%Z))] (VStr "x") [] = None.
 Proof. exact ex_grammar. Qed.
 Print Assumptions C04_set_frame_grammar_nonvacuous.
+
+(* ======================= round 4: the --set family for ALL input strings =======================
+   Values/Strvals2.v is a second transcription of pkg/strvals/parser.go and literal_parser.go:
+   the input is read rune by rune as bytes.Buffer.ReadRune does, [mode] selects one of the five
+   parsers (MTyped = --set, MString = --set-string, MFile = --set-file, MJson = --set-json,
+   MLiteral = --set-literal), [rdr] is the RunesValueReader callback of ParseFile / ParseIntoFile
+   and [jdec] the streaming JSON decoder behind ParseJSON — Section variables: the theorems hold
+   for EVERY callback and EVERY decoder.  A path is a list of steps, [SKey k] (a table key) or
+   [SIdx i] (a list index), nested to any depth; [dget] follows it.  [names_of mode rdr jdec s]
+   reads the paths the successive name=value pairs of s name off the STRING ALONE (no
+   destination), [pairs_of] the same with the value each pair carries.
+
+   The frame, at full strength: for every input string (well-formed or not), every destination
+   and each of the five parsers: when the parse succeeds, every path q that is not related to a
+   named path — [drel false p q = false]: neither is a prefix of the other; the one exception
+   counted as related is q continuing with an index where p continues with a table key right
+   after an index, because "name[i].key=…" replaces a list element that is not a table as a
+   whole ("indices out of order") — is in the result exactly what it was in the destination;
+   or it did not exist, is nil now, and is a padding position [pad_pos p q] of a named path p
+   (q follows p up to one of p's index steps [i] and ends there with an index 0 <= j < i): the
+   nil padding of setIndex (make([]interface{}, index+1)) is the ONLY other effect. *)
+Theorem C04_set_frame_full :
+  forall (mode : pmode) (rdr : string -> val * bool) (jdec : string -> option (val * nat))
+         (s : string) (dest d' : vmap),
+  parse2 mode rdr jdec s dest = POk d' ->
+  forall q : list step,
+  (forall p, In p (names_of mode rdr jdec s) -> drel false p q = false) ->
+  dget q (VMap d') = dget q (VMap dest)
+  \/ (dget q (VMap dest) = None /\ dget q (VMap d') = Some VNull
+      /\ exists p, In p (names_of mode rdr jdec s) /\ pad_pos p q = true).
+Proof. exact parse2_frame. Qed.
+Print Assumptions C04_set_frame_full.
+
+(* … and the named path holds the value: for every input string, when the parse succeeds, a
+   pair (p, v) of the expression whose keys are non-empty (set() ignores an empty key) and
+   whose path no LATER pair of the same expression is related to has dget p result = v. *)
+Theorem C04_set_value_full :
+  forall (mode : pmode) (rdr : string -> val * bool) (jdec : string -> option (val * nat))
+         (s : string) (dest d' : vmap),
+  parse2 mode rdr jdec s dest = POk d' ->
+  forall (pre : list (list step * option val)) (p : list step) (v : val) (post : list (list step * option val)),
+  pairs_of mode rdr jdec s = (pre ++ (p, Some v) :: post)%list ->
+  keys_nonempty p = true ->
+  (forall p', In p' (map fst post) -> drel false p' p = false) ->
+  dget p (VMap d') = Some v.
+Proof. exact parse2_value. Qed.
+Print Assumptions C04_set_value_full.
+
+Example C04_set_frame_full_nonvacuous :
+  parse_into2 "a[0][3][1]=x,b.c=2" ex3_dest
+  = POk [("a", VList [VList [VNum 1; VNull; VNull; VList [VNull; VStr "x"]]; VStr "keep"]);
+         ("z", VMap [("k", VBool true)]); ("b", VMap [("c", VNum 2)])]
+  /\ names_of MTyped no_rdr no_jdec "a[0][3][1]=x,b.c=2" = [[SKey "a"; SIdx 0; SIdx 3; SIdx 1]; [SKey "b"; SKey "c"]]
+  /\ pairs_of MTyped no_rdr no_jdec "a[0][3][1]=x,b.c=2"
+     = [([SKey "a"; SIdx 0; SIdx 3; SIdx 1], Some (VStr "x")); ([SKey "b"; SKey "c"], Some (VNum 2))]
+  /\ drel false [SKey "a"; SIdx 0; SIdx 3; SIdx 1] [SKey "a"; SIdx 1] = false
+  /\ drel false [SKey "a"; SIdx 0; SIdx 3; SIdx 1] [SKey "a"; SIdx 0; SIdx 0] = false
+  /\ pad_pos [SKey "a"; SIdx 0; SIdx 3; SIdx 1] [SKey "a"; SIdx 0; SIdx 2] = true
+  /\ pad_pos [SKey "a"; SIdx 0; SIdx 3; SIdx 1] [SKey "a"; SIdx 0; SIdx 3; SIdx 0] = true
+  /\ pad_pos [SKey "a"; SIdx 0; SIdx 3; SIdx 1] [SKey "a"; SIdx 0; SIdx 4] = false.
+Proof. exact ex_parse2_frame. Qed.
+Print Assumptions C04_set_frame_full_nonvacuous.
+
+(* The reader never runs out of fuel: runes_until2's "out of fuel" branch is dead. *)
+Theorem C04_rune_reader_total : forall (esc : bool) (stop : ascii -> bool) (s : string),
+  exists x, ru (S (String.length s)) esc stop s = Some x.
+Proof. exact ru_total. Qed.
+Print Assumptions C04_rune_reader_total.
+
+(* Printed pairs with NESTED list indexes, --set and --set-string: a path is a first key k0 and
+   steps r, each a key [PK k] (printed ".k", '.', ',', '=', '[' and '\' escaped) or an index
+   [PI txt i] (printed "[txt]", txt any digit text Atoi reads as i): a[0][1], a[1][0].b, ….  Keys
+   are non-empty well-formed UTF-8, at most 30 steps, the value v non-empty well-formed UTF-8
+   (',', '\' and '{' escaped).  [den_k] is the meaning over the destination: tables created on
+   the way, lists created and nil-padded, an element that is not a table replaced by one; None
+   when a key would go below a non-table, an index onto a non-list / a table element, or an
+   index is outside 0..MaxIndex.  Whenever the meaning exists the parse returns exactly it, the
+   named path holds the typed value, and every unrelated path is as it was up to padding. *)
+Theorem C04_set_frame_grammar_nested :
+  forall (st : bool) (k0 : string) (r : list pstep) (v : string) (d d' : vmap),
+  utf8 k0 -> k0 <> EmptyString -> Forall esc_pwf r -> Forall pne r -> List.length r <= 30 ->
+  utf8 v -> v <> EmptyString ->
+  den_k r k0 (typed_val2 st v) d = Some d' ->
+  (if st then parse_into_string2 else parse_into2) (show_path2 esc_key k0 r (esc_val v)) d = POk d'
+  /\ dget (SKey k0 :: map step_of r) (VMap d') = Some (typed_val2 st v)
+  /\ (forall q, drel false (SKey k0 :: map step_of r) q = false ->
+        dget q (VMap d') = dget q (VMap d)
+        \/ (dget q (VMap d) = None /\ dget q (VMap d') = Some VNull /\ pad_pos (SKey k0 :: map step_of r) q = true)).
+Proof. exact set_printed_nested. Qed.
+Print Assumptions C04_set_frame_grammar_nested.
+
+(* the same for ANY of the four escaping parsers and any value text whose reading is x: the
+   scanner reads the printed path back as exactly its keys and indexes *)
+Theorem C04_set_names_its_path_nested :
+  forall (mode : pmode) (rdr : string -> val * bool) (jdec : string -> option (val * nat))
+         (k0 : string) (r : list pstep) (tail : string) (x : val) (d d' : vmap),
+  lit mode = false ->
+  utf8 k0 -> k0 <> EmptyString -> Forall esc_pwf r -> Forall pne r -> List.length r <= 30 ->
+  value_after_eq2 mode rdr jdec tail = V2Ok x EmptyString -> den_k r k0 x d = Some d' ->
+  parse2 mode rdr jdec (show_path2 esc_key k0 r tail) d = POk d'
+  /\ sc_path (scan_key mode rdr jdec (S (List.length r)) (show_path2 esc_key k0 r tail)) = SKey k0 :: map step_of r
+  /\ dget (SKey k0 :: map step_of r) (VMap d') = Some x
+  /\ (forall q, drel false (SKey k0 :: map step_of r) q = false ->
+        dget q (VMap d') = dget q (VMap d)
+        \/ (dget q (VMap d) = None /\ dget q (VMap d') = Some VNull /\ pad_pos (SKey k0 :: map step_of r) q = true)).
+Proof. exact escaped_printed. Qed.
+Print Assumptions C04_set_names_its_path_nested.
+
+(* --set-file: what the callback returns for the path text is stored at the named path;
+   --set-json: what the decoder reads from the text after '=' *)
+Theorem C04_set_file_nested :
+  forall (rdr : string -> val * bool) (k0 : string) (r : list pstep) (v : string) (x : val) (d d' : vmap),
+  utf8 k0 -> k0 <> EmptyString -> Forall esc_pwf r -> Forall pne r -> List.length r <= 30 ->
+  utf8 v -> v <> EmptyString -> rdr v = (x, true) ->
+  den_k r k0 x d = Some d' ->
+  parse_into_file2 rdr (show_path2 esc_key k0 r (esc_val v)) d = POk d'
+  /\ dget (SKey k0 :: map step_of r) (VMap d') = Some x
+  /\ (forall q, drel false (SKey k0 :: map step_of r) q = false ->
+        dget q (VMap d') = dget q (VMap d)
+        \/ (dget q (VMap d) = None /\ dget q (VMap d') = Some VNull /\ pad_pos (SKey k0 :: map step_of r) q = true)).
+Proof. exact file_printed_nested. Qed.
+Print Assumptions C04_set_file_nested.
+
+Theorem C04_set_json_nested :
+  forall (jdec : string -> option (val * nat)) (k0 : string) (r : list pstep) (js : string) (x : val) (d d' : vmap),
+  utf8 k0 -> k0 <> EmptyString -> Forall esc_pwf r -> Forall pne r -> List.length r <= 30 ->
+  empty_val2 js = (false, js) -> jdec js = Some (x, String.length js) ->
+  den_k r k0 x d = Some d' ->
+  parse_json2 jdec (show_path2 esc_key k0 r js) d = POk d'
+  /\ dget (SKey k0 :: map step_of r) (VMap d') = Some x
+  /\ (forall q, drel false (SKey k0 :: map step_of r) q = false ->
+        dget q (VMap d') = dget q (VMap d)
+        \/ (dget q (VMap d) = None /\ dget q (VMap d') = Some VNull /\ pad_pos (SKey k0 :: map step_of r) q = true)).
+Proof. exact json_printed_nested. Qed.
+Print Assumptions C04_set_json_nested.
+
+Example C04_set_frame_grammar_nested_nonvacuous :
+  show_path2 esc_key "a" ex2_path (esc_val "v,1") = "a[0][1][2].x\.y=v\,1"
+  /\ Forall esc_pwf ex2_path /\ Forall pne ex2_path
+  /\ den_k ex2_path "a" (typed_val2 false "v,1") ex2_dest
+     = Some [("a", VList [VList [VNum 7; VList [VStr "old"; VNull; VMap [("x.y", VStr "v,1")]]]; VStr "s"]); ("keep", VBool true)]
+  /\ parse_into2 "a[0][1][2].x\.y=v\,1" ex2_dest
+     = POk [("a", VList [VList [VNum 7; VList [VStr "old"; VNull; VMap [("x.y", VStr "v,1")]]]; VStr "s"]); ("keep", VBool true)]
+  /\ pad_pos (SKey "a" :: map step_of ex2_path) [SKey "a"; SIdx 0; SIdx 1; SIdx 1] = true
+  /\ parse_into2 "a[1].k=1" ex2_dest
+     = POk [("a", VList [VList [VNum 7; VList [VStr "old"]]; VMap [("k", VNum 1)]]); ("keep", VBool true)]
+  /\ den_k [PI "65537" 65537%Z] "l" VNull [] = None
+  /\ den_k [PI "0" 0%Z; PI "0" 0%Z] "keep" VNull ex2_dest = None.
+Proof. exact set_printed_nested_nonvacuous. Qed.
+Print Assumptions C04_set_frame_grammar_nested_nonvacuous.
+
+(* typedVal's rules as a COMPLETE characterisation: for every string v the result is exactly
+   one of the listed forms, decided by the listed tests ([folds_to v w] = strings.EqualFold(v, w)
+   for the ASCII word w: ASCII letters fold, and U+017F folds to "s"; [int_text v n] =
+   strconv.ParseInt(v, 10, 64) = n: optional sign, one or more digits, int64 range):
+   --set-string never infers; true / false / null in any case; "0"; an integer text whose FIRST
+   BYTE is not '0' (so "007" stays a string but "-007" is -7); everything else is the string
+   itself, verbatim.  Never a float, a list or a table. *)
+Theorem C04_typed_val_spec : forall (st : bool) (v : string) (x : val),
+  typed_val2 st v = x <-> typed_as st v x.
+Proof. exact typed_val_spec. Qed.
+Print Assumptions C04_typed_val_spec.
+
+Example C04_typed_val_spec_nonvacuous :
+  typed_val2 false "TRUE" = VBool true /\ typed_val2 false "False" = VBool false /\ typed_val2 false "nUlL" = VNull
+  /\ typed_val2 false ("fal" ++ bs [197; 191] ++ "e") = VBool false
+  /\ typed_val2 false "0" = VNum 0 /\ typed_val2 false "00" = VStr "00" /\ typed_val2 false "1.5" = VStr "1.5"
+  /\ typed_val2 false "9223372036854775807" = VNum 9223372036854775807
+  /\ typed_val2 false "9223372036854775808" = VStr "9223372036854775808"
+  /\ typed_val2 false "-9223372036854775808" = VNum (-9223372036854775808)
+  /\ typed_val2 false "" = VStr "" /\ typed_val2 false "-" = VStr "-" /\ typed_val2 true "true" = VStr "true".
+Proof. exact typed_val_examples. Qed.
+Print Assumptions C04_typed_val_spec_nonvacuous.
+
+(* --set-literal k=v: for every key path k (keys: non-empty well-formed UTF-8 without '=', '['
+   and '.', which the literal parser cannot escape; indexes within 0..MaxIndex, nested to any
+   depth; at most 30 steps) and EVERY byte string v — commas, backslashes, '=', brackets,
+   braces, blanks — on an empty destination: the parse succeeds, the expression names exactly
+   the one path k, the result is the tree [den_k] that holds string([]rune(v)) there, and every
+   other path of the result is absent or a padding nil.  No escapes, no commas, no type
+   inference. *)
+Theorem C04_literal_verbatim : forall (k0 : string) (r : list pstep) (v : string),
+  lit_key k0 -> k0 <> EmptyString -> Forall lit_pwf r -> Forall pne r -> Forall idx_in_range r -> List.length r <= 30 ->
+  exists d',
+    parse_literal_into2 (show_path2 (fun k => k) k0 r v) [] = POk d'
+    /\ den_k r k0 (VStr (to_utf8 v)) [] = Some d'
+    /\ names_of MLiteral no_rdr no_jdec (show_path2 (fun k => k) k0 r v) = [SKey k0 :: map step_of r]
+    /\ dget (SKey k0 :: map step_of r) (VMap d') = Some (VStr (to_utf8 v))
+    /\ (forall q, drel false (SKey k0 :: map step_of r) q = false ->
+          dget q (VMap d') = None \/ (dget q (VMap d') = Some VNull /\ pad_pos (SKey k0 :: map step_of r) q = true)).
+Proof. exact literal_verbatim. Qed.
+Print Assumptions C04_literal_verbatim.
+
+(* string([]rune(v)) is v itself when v is well-formed UTF-8 … *)
+Theorem C04_literal_verbatim_utf8 : forall (k0 : string) (r : list pstep) (v : string),
+  lit_key k0 -> k0 <> EmptyString -> Forall lit_pwf r -> Forall pne r -> Forall idx_in_range r -> List.length r <= 30 ->
+  utf8 v ->
+  exists d', parse_literal_into2 (show_path2 (fun k => k) k0 r v) [] = POk d'
+             /\ dget (SKey k0 :: map step_of r) (VMap d') = Some (VStr v).
+Proof. exact literal_verbatim_utf8. Qed.
+Print Assumptions C04_literal_verbatim_utf8.
+
+(* … and "verbatim for every byte string" is FALSE of the faithful model (replayed on the real
+   code: corpus case --set-literal "a=\xff" gives "�"): bytes that are not well-formed
+   UTF-8 come out as U+FFFD, because the parsers read runes.  Classified as an intended quirk
+   of reading runes (command lines are UTF-8), hence the hypothesis [utf8 v] above. *)
+Theorem C04_literal_verbatim_bytes_refuted :
+  exists v d', parse_literal_into2 (show_path2 (fun k => k) "a" [] v) [] = POk d'
+               /\ dget [SKey "a"] (VMap d') <> Some (VStr v).
+Proof. exact literal_verbatim_bytes_refuted. Qed.
+Print Assumptions C04_literal_verbatim_bytes_refuted.
+
+Example C04_literal_verbatim_nonvacuous :
+  lit_key "a" /\ lit_key "k-1" /\ Forall lit_pwf [PI "1" 1%Z; PI "0" 0%Z; PK "k-1"]
+  /\ show_path2 (fun k => k) "a" [PI "1" 1%Z; PI "0" 0%Z; PK "k-1"] "x,y\z={1}, [2]=" = "a[1][0].k-1=x,y\z={1}, [2]="
+  /\ parse_literal_into2 "a[1][0].k-1=x,y\z={1}, [2]=" []
+     = POk [("a", VList [VNull; VList [VMap [("k-1", VStr "x,y\z={1}, [2]=")]]])].
+Proof. exact literal_verbatim_nonvacuous. Qed.
+Print Assumptions C04_literal_verbatim_nonvacuous.
+
+(* The lexical constants of both parsers, read out of pkg/strvals/parser.go and
+   literal_parser.go with go/ast on every run (Gen/StrvalsTable.v): MaxIndex and
+   MaxNestedNameLevel are the model's; the runeSet literal of every parsing state, in source
+   order, is — on all 256 bytes — the stop function the models use in that state (and all its
+   members are ASCII, which is what makes the byte level and the rune level agree on them);
+   the runes compared with literally (the escape rune '\' of runesUntil and none in
+   runesUntilLiteral, ',' and '{' '}' of emptyVal / valList), the range checks of setIndex and
+   of every nesting-level test, typedVal's words in order and ParseInt's base and size are the
+   expected ones; and the models decide with exactly these values. *)
+Theorem C04_strvals_tables :
+  go_max_index = max_index
+  /\ go_max_nested_name_level = max_nested_name_level
+  /\ stops_agree model_stops go_stop_sets = true
+  /\ go_rune_cmps = expected_rune_cmps
+  /\ go_range_checks = expected_range_checks
+  /\ go_typed_words = ["true"; "false"; "null"; "0"]
+  /\ go_parse_int_args = [10; 64]
+  /\ go_is_space_users = ["parser.emptyVal"]
+  /\ (forall c : ascii,
+        stop_key c = mem_nat (nat_of_ascii c) [61; 91; 44; 46]
+        /\ stop_key_lit c = mem_nat (nat_of_ascii c) [61; 91; 46]
+        /\ stop_item c = mem_nat (nat_of_ascii c) [91; 46; 61]
+        /\ stop_rbr c = mem_nat (nat_of_ascii c) [93]
+        /\ stop_comma c = mem_nat (nat_of_ascii c) [44]
+        /\ stop_list c = mem_nat (nat_of_ascii c) [44; 125]
+        /\ stop_none c = mem_nat (nat_of_ascii c) [])
+  /\ (forall l i v, set_index l i v =
+        if (i <? 0)%Z then None else if (go_max_index <? i)%Z then None else Some (set_nth (Z.to_nat i) v l)).
+Proof. exact tables_all. Qed.
+Print Assumptions C04_strvals_tables.
